@@ -271,7 +271,27 @@ func C14(r *core.Run) {
 		}
 	}
 	// unknown names
-	for _, n := range []string{"", "nosuchterm", "xterm-nosuch", "nosuch-256color", "nosuch-truecolor", "dumb", "-truecolor", "-256color", "XTERM"} {
+	unknownNames := []string{"", "nosuchterm", "xterm-nosuch", "nosuch-256color", "nosuch-truecolor", "dumb", "-truecolor", "-256color", "XTERM"}
+	// names that merely contain a known name or a known suffix: junk after the suffix, the suffix
+	// doubled or in the middle, a known name with a prefix or in other case
+	snapshot()
+	var known []string
+	for k := range snapMap {
+		known = append(known, k)
+	}
+	sort.Strings(known)
+	for i, k := range known {
+		base := k
+		for _, suf := range []string{"-256color", "-88color", "-16color", "-color", "-truecolor", "-direct"} {
+			base = strings.TrimSuffix(base, suf)
+		}
+		cands := []string{base + "-256colorX", base + "-256color2", base + "-256color-bogus", base + "-truecolorX", base + "-truecolor-bogus", base + "-256color-256colorz", "x" + k, k + "x", k + "-", strings.ToUpper(k[:1]) + k[1:] + "_"}
+		unknownNames = append(unknownNames, cands[i%len(cands)], cands[(i+3)%len(cands)], cands[(i+7)%len(cands)])
+	}
+	for _, n := range unknownNames {
+		if _, isKnown := snapMap[n]; isKnown {
+			continue
+		}
 		RestoreRegistry()
 		_, err := terminfo.LookupTerminfo(n)
 		if !errors.Is(err, terminfo.ErrTermNotFound) {
